@@ -326,7 +326,48 @@ end Jwt.Generated
     return "CommonDefs.lean", text, info
 
 
-GENERATORS = [gen_base64, gen_alg, gen_common]
+def gen_jwk(repo, build):
+    hdr = cpp(repo, build, "include/jwt.h")
+    src = cpp(repo, build, "libjwt/jwks.c")
+    ops = dict(enum_values(hdr, "jwk_key_op_t"))
+    kty = dict(enum_values(hdr, "jwk_key_type_t"))
+    use = dict(enum_values(hdr, "jwk_pub_key_use_t"))
+    body = func_body(src, r"\bjwk_key_op_j\s*\(\s*json_t\s*\*\s*\w+\s*\)\s*\{")
+    chain = re.findall(r"!\s*jwt_strcmp\s*\(\s*\w+\s*,\s*\"([^\"]*)\"\s*\)\s*\)\s*return\s+(\w+)\s*;", body)
+    if not chain:
+        raise ExtractError("jwk_key_op_j: no compare/return chain")
+    for _, c in chain:
+        if c not in ops:
+            raise ExtractError("jwk_key_op_j: unknown enumerator " + c)
+    body1 = func_body(src, r"\bjwk_process_one\s*\(")
+    ktys = re.findall(r"!\s*jwt_strcmp\s*\(\s*kty\s*,\s*\"([^\"]*)\"\s*\)\s*\)\s*\{\s*item->kty\s*=\s*(\w+)\s*;", body1)
+    if len(ktys) < 1:
+        raise ExtractError("jwk_process_one: kty chain not found")
+    body2 = func_body(src, r"\bjwk_process_values\s*\(")
+    uses = re.findall(r"!\s*jwt_strcmp\s*\(\s*use\s*,\s*\"([^\"]*)\"\s*\)\s*\)\s*item->use\s*=\s*(\w+)\s*;", body2)
+    if not uses:
+        raise ExtractError("jwk_process_values: use chain not found")
+
+    def bl(s_):
+        return "[%s]" % ", ".join(str(b) for b in s_.encode())
+    text = f"""/- GENERATED by tie/extract.py from include/jwt.h and libjwt/jwks.c -- do not edit. -/
+namespace Jwt.Generated
+
+/-- `jwk_key_op_j`: the `!jwt_strcmp(op, "…")` chain with the `jwk_key_op_t` bit it returns -/
+def keyOpTable : List (List UInt8 × Nat) := [{", ".join("(%s, %d) /- %s -/" % (bl(n), ops[c], n) for n, c in chain)}]
+
+/-- `jwk_process_one`: kty string ↦ `jwk_key_type_t` ordinal, in source order -/
+def ktyTable : List (List UInt8 × Nat) := [{", ".join("(%s, %d) /- %s -/" % (bl(n), kty[c], n) for n, c in ktys)}]
+
+/-- `jwk_process_values`: use string ↦ `jwk_pub_key_use_t` ordinal -/
+def useTable : List (List UInt8 × Nat) := [{", ".join("(%s, %d) /- %s -/" % (bl(n), use[c], n) for n, c in uses)}]
+
+end Jwt.Generated
+"""
+    return "JwkTables.lean", text, {"key_ops": chain, "kty": ktys, "use": uses}
+
+
+GENERATORS = [gen_base64, gen_alg, gen_common, gen_jwk]
 
 
 def main():
